@@ -294,11 +294,11 @@ def check_first(run, F):
                    (g + ['!VALID(ext)'], '()', upd + adv))
         if guarded:
             want |= N.T((['!VALID(a0)'], '()', adv))
-        # the two cache assignments are independent: compare them as a set
-        def unord(tb):
-            return dtree.Table((cs, l, tuple(sorted(e for e in ef if 'AddAssign' not in e)) +
-                                tuple(e for e in ef if 'AddAssign' in e)) for cs, l, ef in tb)
-        run.ob('AGG.first', fn, '%s: strict %s, first wins' % (fn.name, rel), unord(t) == unord(want),
+        # the two cache assignments are independent: compare the effects as a multiset (the
+        # counter is advanced after them on every row, which the row-wise presence shows)
+        adv_last = all(not ef or 'AddAssign 1' in ef[-1] for cs, l, ef in t)
+        run.ob('AGG.first', fn, '%s: strict %s, first wins' % (fn.name, rel),
+               dtree.equiv(t, want, unordered=True) and adv_last,
                fn.loc(), 'table %s' % dtree.show(t))
         # the function returns the cached index: the variable assigned Some(<position counter>)
         ft = N.tbl(fn)
@@ -365,7 +365,7 @@ def check_folds(run, F):
 def check_tables(run, F):
     specs = {
         'AggValidBasic::count_valid': 'self.vfold_n((), || ).0',
-        'AggValidBasic::vany': 'self.vfold(false, |a0, a1| (a0 || a1.bool_()))',
+        'AggValidBasic::vany': 'self.vfold(false, |a0, a1| !(!a0 && !a1.bool_()))',
         'AggValidBasic::vall': 'self.vfold(true, |a0, a1| (a0 && a1.bool_()))',
         'AggValidBasic::vmax': 'self.vfold(NULL, |a0, a1| if VALID(a0) { Some(a0.max_with(a1)) } else { Some(a1) })',
         'AggValidBasic::vmin': 'self.vfold(NULL, |a0, a1| if VALID(a0) { Some(a0.min_with(a1)) } else { Some(a1) })',
